@@ -8,7 +8,7 @@ import itertools
 
 import numpy as np
 
-from .values import SReal, SBool, Inf, to_obj, lift, eng, F
+from .values import SReal, SBool, Inf, to_obj, lift, eng, F, ONE
 
 
 def _is_sym(a):
@@ -306,17 +306,39 @@ class NPProxy:
         return np.array(idx, dtype=int)
 
     def clip(self, a, a_min=None, a_max=None, out=None):
+        """fork-free: the clipped value is a fresh symbol defined by  c = ite(v < lo, lo, ite(v > hi, hi, v))"""
         a_ = np.asarray(a)
         if a_.dtype != object:
             return np.clip(a, a_min, a_max, out=out)
+        import z3
+        e = eng()
+        lo = None if a_min is None else (a_min if isinstance(a_min, (SReal, Inf)) else SReal(*lift(a_min)))
+        hi = None if a_max is None else (a_max if isinstance(a_max, (SReal, Inf)) else SReal(*lift(a_max)))
         r = np.empty(a_.shape, dtype=object)
         for idx in np.ndindex(*a_.shape):
             v = a_[idx]
-            if a_min is not None and bool(v < a_min):
-                v = SReal(*lift(a_min)) if not isinstance(a_min, (SReal, Inf)) else a_min
-            elif a_max is not None and bool(v > a_max):
-                v = SReal(*lift(a_max)) if not isinstance(a_max, (SReal, Inf)) else a_max
-            r[idx] = v
+            if isinstance(v, Inf):
+                v = (hi if v.s > 0 else lo) if (hi if v.s > 0 else lo) is not None else v
+                r[idx] = v
+                continue
+            if not isinstance(v, SReal):
+                v = SReal(*lift(v))
+            below = z3.BoolVal(False) if lo is None or isinstance(lo, Inf) else v.rel(lambda x, y: x < y, lo)
+            above = z3.BoolVal(False) if hi is None or isinstance(hi, Inf) else v.rel(lambda x, y: x > y, hi)
+            below, above = z3.simplify(below), z3.simplify(above)
+            if z3.is_true(below):
+                r[idx] = lo
+            elif z3.is_false(below) and z3.is_true(above):
+                r[idx] = hi
+            elif z3.is_false(below) and z3.is_false(above):
+                r[idx] = v
+            elif v.d is not ONE or (lo is not None and not isinstance(lo, Inf) and lo.d is not ONE) or (hi is not None and not isinstance(hi, Inf) and hi.d is not ONE):
+                r[idx] = lo if e.branch(below) else (hi if e.branch(above) else v)
+            else:
+                c = SReal.sym(f"clip!{next(e.fresh)}")
+                e.assume(c.z3() == z3.If(below, lo.z3() if lo is not None and not isinstance(lo, Inf) else v.z3(),
+                                         z3.If(above, hi.z3() if hi is not None and not isinstance(hi, Inf) else v.z3(), v.z3())))
+                r[idx] = c
         if out is not None:
             out[...] = r
             return out
